@@ -4,10 +4,15 @@ Driver requests for a whole run of `cnfgen` / `pbgen` (Cli/Text.lean, Cli/Outcom
   cli_text <tool: 0 cnfgen | 1 pbgen> <fmt: 0 dimacs | 1 opb> <verbose> <varnames> <seed?> <cmdline…> <name> <argv…>
       the text written by `<tool> … <name> <argv>` (formula sub-command `name`), with an EMPTY generator header and
       the variable names `v1 v2 …` — the harness compares the non-comment lines and the lines `cli()` adds itself.
-      answer: `OK <n> <code points…>` | `ERR <Exception>` | `UNSUPPORTED`
+      answer: `OK text <n> <code points…>` | `OK cliError` | `OK escaped:<Exception>` | `UNSUPPORTED`
+  cli_run <cls: 0 CNF (cnfgen) | 1 OPB (pbgen)> <name> <argv…>
+      the whole run of the formula sub-command `name`, graph arguments resolved by the deterministic constructions
+      (`detEnv`): `OK ok <formula in the class>` | `OK cliError` | `OK escaped:<Exception>` | `OK internalBug` |
+      `UNSUPPORTED` (outside the model: random / third-party / file graph arguments, unmapped calls, argparse fragment)
 -/
 import CnfgenModel.Driver.Util
 import CnfgenModel.Cli.Text
+import CnfgenModel.Cli.OutcomeG
 namespace Cnfgen.Driver.CliRun
 open Cnfgen Cnfgen.Driver Cnfgen.Cli Cnfgen.Gen Cnfgen.IO
 
@@ -68,6 +73,27 @@ def handle (opname : String) (a : Args) : Option String :=
             let names := (List.range F.nvars).map (fun i => 'v' :: natStr (i + 1))
             pure (ok ("text " ++ fmtText (canonText fmt (cliText gl [] names F))))
           | some r => pure (ok (fmtOutcome (shield r)))) a
+  | "cli_run" => run (do
+      let cls ← int; let name ← str; let argv ← listOf str
+      match helpers.find? (fun h => h.kind == "formula" && h.name == name) with
+      | none => pure "UNSUPPORTED"
+      | some h =>
+        match Cnfgen.Cli.dispatch h argv with
+        | .error .cliError => pure (ok "cliError")
+        | .error (.crash e) => pure (ok ("escaped:" ++ e))
+        | .error (.unsupported _) => pure "UNSUPPORTED"
+        | .ok c =>
+          if !callDet c then pure "UNSUPPORTED" else
+          if c.fn == "PitfallFormula" then
+            pure (match cliOutcomeG detEnv h argv with
+                  | some .ok => "UNSUPPORTED"
+                  | some o => ok (fmtOutcome o)
+                  | none => "UNSUPPORTED")
+          else
+          match cliBuiltG detEnv oneVertex h argv, cliOutcomeG detEnv h argv with
+          | some (.result (.ok F)), some .ok => pure (ok ("ok " ++ fmtFormula cls F))
+          | some _, some o => pure (ok (fmtOutcome o))
+          | _, _ => pure "UNSUPPORTED") a
   | _ => none
 
 end Cnfgen.Driver.CliRun
